@@ -199,6 +199,12 @@ def check(cx):
             adds = [c for c in g.calls() if c.bb in body and (c.callee.endswith("Vec::<T, A>::push") or c.callee.endswith("::extend_from_slice"))]
             if fed and adds:
                 good = True
+        # iterator-adaptor form of the same loop: `ids.iter().map(|c| row[*c] ...).collect()`
+        for c in g.calls():
+            if c.defn in ("std::iter::Iterator::map", "std::iter::Iterator::filter_map", "std::iter::Iterator::for_each",
+                          "std::iter::Iterator::flat_map", "std::iter::Iterator::try_for_each") and c.gargs and \
+                    "slice::Iter<'_, usize>" in c.gargs[0] and srcs & g.dep_closure(op_local(c.args[0])):
+                good = True
         cx.verdict(good, r6, nm, g.where(), "key built in a loop over the declared column list",
                    "%s does not build its key by walking the declared indexed-column list: for an index declared in another "
                    "order than the table columns (UNIQUE(b, a)) the stored key and the probe key differ and duplicates are "
